@@ -490,6 +490,24 @@ func (m *Model) Exec(ctx context.Context, l *Lake, b Backing, op Op) Outcome {
 			return out
 		}
 		m.addCommit(&MCommit{ID: commit, Parent: tip, Kind: op.Kind}, op.Branch)
+		// post-condition: the branch lists a vector for exactly these ids more
+		// (or fewer), and a listed vector has its file
+		if listed, lerr := l.Vectors(ctx, m.Spec.Name, op.Branch); lerr != nil {
+			prob("vectors:listing-unreadable", "%s@%s:vectors after %s: %v", m.Spec.Name, op.Branch, op.Kind, lerr)
+		} else {
+			has := map[ksuid.KSUID]bool{}
+			for _, o := range listed {
+				has[o.ID] = true
+				if _, ok := b.Get(VectorPath(m.PoolID, o.ID)); !ok {
+					prob("vectors:listed-vector-has-no-file", "%s@%s lists a vector for %s after %s but its file does not exist", m.Spec.Name, op.Branch, o.ID, op.Kind)
+				}
+			}
+			for _, id := range ids {
+				if has[id] != (op.Kind == "add-vectors") {
+					prob("vectors:"+op.Kind+"-not-reflected-in-listing", "%s of %s acknowledged, but %s@%s:vectors lists it: %v", op.Kind, id, m.Spec.Name, op.Branch, has[id])
+				}
+			}
+		}
 	case "vacuum":
 		if tip == ksuid.Nil {
 			out.Skipped = true
